@@ -703,6 +703,7 @@ def rule_M7(ctx, classes=None):
         ef = lc._ef = entry_facts(lc, set(LIC_CLASSES))
     nfun = 0
     ncand = 0
+    nlocal = 0
     for cls in classes:
         U, per = lc.object_U(cls)
         ax = lc.axioms(cls)
@@ -743,5 +744,81 @@ def rule_M7(ctx, classes=None):
                          % (', '.join(sorted(names.values())), what, who, _show(vu), _showl(wit)))
             if names and len(res.samples) < 6:
                 res.samples.append({'fn': f.q, 'placeholders': sorted(names.values())})
-    res.analysed.update({'gated_functions': nfun, 'mask_gated_placeholders': ncand})
+            nlocal += _m7b_function(ctx, f, fl, res)
+    res.analysed.update({'gated_functions': nfun, 'mask_gated_placeholders': ncand, 'local_reads_checked': nlocal})
     return res, nfun, ncand
+
+
+# ------------------------------------------------------------------ M7b: local form of M7
+def _m7b_function(ctx, f, fl, res):
+    """`real v = <placeholder>; ... if (mask & G1) { v = ...; } ... use of v` among the statements of one block:
+    every later read of v in that block (up to the next unconditional plain reassignment) is on paths whose mask
+    facts contain a bit of G1.  Decided with the path facts of the flow engine; applies inside data-conditional
+    branches as well (where the global rule M7 declines)."""
+    nchecked = 0
+    lic0 = Lic.__new__(Lic)
+    lic0.fn, lic0.fl = f, fl
+    cand = Lic._zero_then_assigned_any(lic0)          # placeholders and their assignment sites
+    if not cand:
+        return 0
+    decl_line = {}
+    for i, n in f.all_nodes():
+        if n['k'] == 'DeclStmt':
+            for d in n['decls']:
+                if d['d'] in cand:
+                    decl_line[d['d']] = (n['l'], d.get('name', '?'))
+    for i, n in f.all_nodes():
+        if n['k'] != 'IfStmt' or n.get('then', -1) < 0:
+            continue
+        pure, has_and = Lic._pure_mask_cond(lic0, n['cond'], 0)
+        if not (pure and has_and):
+            continue
+        par = f.parent[i]
+        if par < 0 or f.nodes[par]['k'] != 'CompoundStmt':
+            continue
+        then_nodes = set(f.walk(n['then']))
+        else_nodes = set(f.walk(n['else'])) if n.get('else', -1) is not None and n.get('else', -1) >= 0 else set()
+        pos, neg = fl.cond2(n['cond'], fl.env_at(n['cond']))
+        if pos is None or any(len(c) != 1 for c in pos):
+            continue
+        g1 = {next(iter(c)) for c in pos}            # single positive literals: bit k of the mask is set
+        if not all(l[1] and l[0].startswith('b:') for l in g1):
+            continue
+        for d, sites in cand.items():
+            inside = [s for s in sites if s in then_nodes]
+            if not inside or any(s in else_nodes for s in sites):
+                continue
+            # only placeholder definitions before the if
+            if any(f.nodes[s]['l'] < n['l'] and s not in then_nodes for s in sites):
+                continue
+            sibs = f.nodes[par]['ch']
+            for sj in sibs[sibs.index(i) + 1:]:
+                sn = f.nodes[f.strip(sj)]
+                if sn['k'] == 'BinaryOperator' and sn.get('op') == '=':
+                    ln = f.nodes[f.strip(sn['ch'][0])]
+                    if ln['k'] == 'DeclRefExpr' and ln.get('d') == d and \
+                            not any(f.nodes[x]['k'] == 'DeclRefExpr' and f.nodes[x].get('d') == d for x in f.walk(sn['ch'][1])):
+                        break
+                for x in f.walk(sj):
+                    xn = f.nodes[x]
+                    if xn['k'] != 'DeclRefExpr' or xn.get('d') != d:
+                        continue
+                    pp = f.parent[x]
+                    if pp >= 0 and f.nodes[pp]['k'] == 'BinaryOperator' and f.nodes[pp].get('op') == '=' and \
+                            f.strip(f.nodes[pp]['ch'][0]) == x:
+                        continue          # plain store, not a read
+                    alts = fl.facts_at(x)
+                    if not alts:
+                        continue
+                    nchecked += 1
+                    bad = [a for a in alts if not (g1 & set(a))]
+                    res.ob(not bad, None)
+                    if bad:
+                        name = decl_line.get(d, (0, '?'))[1]
+                        if not any(z.fn == f.q and z.symbol == name + '/local' for z in res.findings):
+                            res.fail(f.q, name + '/local', f.loc(x),
+                                     '%s holds a placeholder until it is computed under `%s` (line %d) but is read at %s on a '
+                                     'path that does not establish any of those mask bits: the result depends on which other '
+                                     'outputs were requested' % (name, f.src_text(n['cond'])[:60].strip(), n['l'],
+                                                                 f.loc(x).rsplit('/', 1)[-1]))
+    return nchecked
